@@ -195,24 +195,6 @@ pub fn c16_mirror(_m: &mut Mon, ctx: &StepCtx, stats: &mut Stats, out: &mut Vec<
             break;
         }
     }
-    // ordering: balance mirroring precedes the receive hook of the same send
-    if ctx.committed() {
-        let o = ctx.out.unwrap();
-        for c in &o.calls {
-            if let Some((BSEI, v, _)) = c.exec() {
-                if v == "send" || v == "send_from" {
-                    let kids: Vec<&CallRec> = o.children(c.idx).collect();
-                    let hook_pos = kids.iter().position(|k| matches!(k.exec(), Some((_, "receive", _))));
-                    let last_mirror = kids.iter().rposition(|k| matches!(k.exec(), Some((REWARD, "increase_balance", _)) | Some((REWARD, "decrease_balance", _))));
-                    if let (Some(h), Some(mi)) = (hook_pos, last_mirror) {
-                        if mi > h {
-                            viol(out, "C16", "mirror_precedes_receive_hook", ctx.idx, "bsei.send:order", "Receive hook dispatched before the balance mirroring".into());
-                        }
-                    }
-                }
-            }
-        }
-    }
 }
 
 // ======================================================================= C17
@@ -283,8 +265,20 @@ pub fn c17_dispatcher(_m: &mut Mon, ctx: &StepCtx, stats: &mut Stats, out: &mut 
                         }
                     }
                 }
-                let offer_amt = c.attr("offer_coin_amount").and_then(|s| s.parse::<u128>().ok()).unwrap_or(0);
-                let offer_denom = c.attr("offer_coin_denom").unwrap_or("").to_string();
+                // the rebalancing offer, read from the dispatched swap message itself (the last swap
+                // whose offered coin is one of the two reward coins); no offer = nothing swapped
+                let mut offer_amt = 0u128;
+                let mut offer_denom = sd.clone();
+                for k in o.children(c.idx) {
+                    if let MsgRec::Exec { funds, .. } = &k.msg {
+                        for (d, a) in funds {
+                            if *d == sd || *d == bd {
+                                offer_amt = *a;
+                                offer_denom = d.clone();
+                            }
+                        }
+                    }
+                }
                 // 2. share equation at the oracle price
                 if both_ok && o.ok {
                     let bs = body.get("stsei_total_bonded").and_then(|v| v.as_str()).and_then(|s| s.parse::<u128>().ok()).unwrap_or(0);
